@@ -49,6 +49,9 @@ def compare(case, obs, model):
     if model[0] == 0:
         if 'err' not in obs:
             probs.append('model raises (code %d), implementation returns a mapping' % model[1])
+        elif model[1] == 5:
+            if not obs['err'].startswith('Other:'):
+                probs.append('exception class differs: model OtherError (ZeroDivisionError), implementation %s' % obs['err'])
         elif {1: 'ValueError', 2: 'IndexError', 3: 'KeyError', 4: 'TypeError'}.get(model[1]) != obs['err']:
             probs.append('exception class differs: model code %d, implementation %s' % (model[1], obs['err']))
         return probs
